@@ -6,6 +6,7 @@ from fractions import Fraction
 
 from .. import dag, qk
 from ..arr import Arr
+from ..core import pmap
 from ..pe import PE, Obj, Env
 from ..series import valuation_at_least
 from ..src import load, stmt_text
@@ -55,6 +56,41 @@ def mu2_table(chk, src, pe, rule="segment-couplings-table"):
     return n
 
 
+def _unit_case(rec, case):
+    """one unvaried kernel and its scale-varied siblings at L = 0 (worker of the parallel map)"""
+    src, pe = qk.make_pe()
+    M, SV = qk.enums(pe)
+    fq = src.func(f"{qk.QK}.quad_ker_qcd")
+    fe = src.func(f"{qk.QK}.quad_ker_qed")
+
+    def same(a, b):
+        fa = a.flat() if isinstance(a, Arr) else [a]
+        fb = b.flat() if isinstance(b, Arr) else [b]
+        return dag.is_zero_fp([dag.sub(x, y) for x, y in zip(fa, fb)], rec.seed, 2)
+
+    if case[0] == "qcd":
+        _, n, mname, m0, m1 = case
+        base = dict(order=(n, 0), mode0=m0, mode1=m1, method=M[mname], nf=4, its=1)
+        ref = qk.qcd(pe, sv_mode=SV["unvaried"], Lsv=0, **base)
+        for scheme in ("exponentiated", "expanded"):
+            for thr in (False, True):
+                v = qk.qcd(pe, sv_mode=SV[scheme], Lsv=0, is_threshold=thr, **base)
+                ok, info = same(ref, v)
+                rec.decide(ok, "unit-ratio-reproduces-unvaried-kernel", fq.qname,
+                           f"order={n}, {mname}, sector ({m0},{m1}), {scheme}, threshold={thr}: with xi=1 the kernel differs from the "
+                           f"unvaried one", where=fq.where, instance=f"{n},{mname},{m0},{scheme},{thr}", how="differential PE + PIT")
+    else:
+        _, n, m, m0, m1, running = case
+        base = dict(order=(n, m), mode0=m0, mode1=m1, method=M["ITERATE_EXACT"], nf=4, its=1, running=running)
+        ref = qk.qed(pe, sv_mode=SV["unvaried"], Lsv=0, **base)
+        for scheme in ("exponentiated", "expanded"):
+            v = qk.qed(pe, sv_mode=SV[scheme], Lsv=0, **base)
+            ok, info = same(ref, v)
+            rec.decide(ok, "unit-ratio-reproduces-unvaried-kernel", fe.qname,
+                       f"order=({n},{m}), sector ({m0},{m1}), {scheme}, running={running}: with xi=1 the QED kernel differs from "
+                       f"the unvaried one", where=fe.where, instance=f"({n},{m}),{m0},{scheme},{running}", how="differential PE + PIT")
+
+
 def run(chk):
     src, pe = qk.make_pe()
     M, SV = qk.enums(pe)
@@ -68,33 +104,19 @@ def run(chk):
         fb = b.flat() if isinstance(b, Arr) else [b]
         return dag.is_zero_fp([dag.sub(x, y) for x, y in zip(fa, fb)], chk.seed, 2)
 
-    # ---- (1) unit ratio ---------------------------------------------------------------------------------------
+    # ---- (1) unit ratio (independent kernel extractions: run in parallel) -----------------------------------------------
+    cases = []
     for n in (1, 2, 3, 4):
         for mname in (("ITERATE_EXACT", "TRUNCATED", "DECOMPOSE_EXPANDED") if chk.tier == "thorough" else ("ITERATE_EXACT", "TRUNCATED")):
             for (m0, m1) in (((100, 21), (21, 21), (10101, 0), (10201, 0), (10200, 0)) if chk.tier == "thorough"
                              else ((100, 21), (10101, 0), (10200, 0))):
-                base = dict(order=(n, 0), mode0=m0, mode1=m1, method=M[mname], nf=4, its=1)
-                ref = qk.qcd(pe, sv_mode=SV["unvaried"], Lsv=0, **base)
-                for scheme in ("exponentiated", "expanded"):
-                    for thr in (False, True):
-                        v = qk.qcd(pe, sv_mode=SV[scheme], Lsv=0, is_threshold=thr, **base)
-                        ok, info = same(ref, v)
-                        n_inst += 1
-                        chk.decide(ok, "unit-ratio-reproduces-unvaried-kernel", fq.qname,
-                                   f"order={n}, {mname}, sector ({m0},{m1}), {scheme}, threshold={thr}: with xi=1 the kernel differs from the "
-                                   f"unvaried one", where=fq.where, instance=f"{n},{mname},{m0},{scheme},{thr}", how="differential PE + PIT")
+                cases.append(("qcd", n, mname, m0, m1))
     for n, m in ((1, 1), (2, 2), (3, 2), (4, 1)):
         for (m0, m1) in ((21, 22), (100, 101), (10200, 10204), (10102, 0), (10203, 0)):
             for running in (False, True):
-                base = dict(order=(n, m), mode0=m0, mode1=m1, method=M["ITERATE_EXACT"], nf=4, its=1, running=running)
-                ref = qk.qed(pe, sv_mode=SV["unvaried"], Lsv=0, **base)
-                for scheme in ("exponentiated", "expanded"):
-                    v = qk.qed(pe, sv_mode=SV[scheme], Lsv=0, **base)
-                    ok, info = same(ref, v)
-                    n_inst += 1
-                    chk.decide(ok, "unit-ratio-reproduces-unvaried-kernel", fe.qname,
-                               f"order=({n},{m}), sector ({m0},{m1}), {scheme}, running={running}: with xi=1 the QED kernel differs from "
-                               f"the unvaried one", where=fe.where, instance=f"({n},{m}),{m0},{scheme},{running}", how="differential PE + PIT")
+                cases.append(("qed", n, m, m0, m1, running))
+    n_inst = sum(4 if c[0] == "qcd" else 2 for c in cases)
+    pmap(chk, _unit_case, cases, jobs=14)
     chk.floor("unit-ratio kernel comparisons", n_inst, 150)
 
     # ---- (2) working-order law for the non-singlet exact kernel -------------------------------------------------------
